@@ -65,6 +65,13 @@ pub fn gen_history(rng: &mut Rng, max_symbols: u64, with_removal: bool) -> Sende
             ops.push(TimedOp { when: When::AtUs(2_000_000), op: Op::Remove(i) });
         }
     }
+    // a stoppable object removed at the very start of a transfer: after the FDT packets that announce it (or a pending
+    // publication), before - or right after - its first packet
+    if rng.chance(0.12) {
+        objects[0].immediate_stop = Some(true);
+        ops.retain(|t| t.op != Op::Remove(0));
+        ops.push(TimedOp { when: When::AfterPkt(rng.range(1, 4)), op: Op::Remove(0) });
+    }
     // set_complete(): only add_object is refused afterwards, everything queued goes on as before
     if rng.chance(0.08) {
         let when = if rng.chance(0.5) { When::AtUs(0) } else { When::AfterPkt(rng.range(1, 60)) };
